@@ -895,3 +895,107 @@ def replay_ckk(rec):
         ys = ["EXC " + type(e).__name__]
     outl.append({"label": "ckk.generator_yields_differ_from_model", "m": rec["yields"], "c": ys, "key": key})
     return outl
+
+
+# ------------------------------------------------------------------ magnitude tier (values up to 2^50, totals < 2^53): two-limb numbers for TLC
+_BASE = 1 << 26
+
+
+def limbs(x):
+    """exact non-negative integer below 2^53 -> [hi, lo] (base 2^26), else None"""
+    try:
+        if isinstance(x, bool):
+            return None
+        if isinstance(x, (int, np.integer)):
+            v = int(x)
+        else:
+            xf = float(x)
+            if math.isnan(xf) or math.isinf(xf):
+                return None
+            f = Fraction(xf)
+            if f.denominator != 1:
+                return None
+            v = int(f)
+        if v < 0 or v >= (1 << 53):
+            return None
+        return [v >> 26, v & (_BASE - 1)]
+    except Exception:
+        return None
+
+
+def _limb_seq(xs):
+    outl, ok = [], True
+    try:
+        for x in list(xs):
+            l = limbs(x)
+            if l is None:
+                ok = False; l = [0, 0]
+            outl.append(l)
+    except Exception:
+        return [], False
+    return outl, ok
+
+
+def run_big_group(g):
+    """g: {vals (python ints up to 2^50), k, calls: [{alg, o, kp, sw...}]}: every call with all ten output types; plus the objectives on the returned sums"""
+    vals, k = g["vals"], g["k"]
+    res, objs = [], []
+    for c in g["calls"]:
+        st = dict(c); st["vals"] = vals; st["k"] = k
+        items, valueof, back = present(vals, "dict")
+        r = {"alg": c["alg"], "out": "ret", "lists": [], "sums": [], "exact": True, "ots": []}
+        sums_for_obj = None
+        try:
+            signal.alarm(20)
+            try:
+                ret = prtpy.partition(algorithm=PART_ALGS[c["alg"]](), numbins=k, items=items, outputtype=out.PartitionAndSumsTuple, **part_kwargs(st))
+            finally:
+                signal.alarm(0)
+            if ret is None:
+                r["out"] = "none"
+            else:
+                sums, lists = ret
+                r["lists"] = lists_to_ids([list(b) for b in lists], vals, back)
+                r["sums"], r["exact"] = _limb_seq(sums)
+                sums_for_obj = list(sums)
+        except Watchdog:
+            r["out"] = "timeout"
+        except Exception as e:
+            r["out"] = outcome_of_exception(e)
+        if r["out"] == "ret":
+            for t in ALL_OT:
+                if t in ("Partition", "BinCount"):
+                    continue
+                y = {"t": t, "out": "ret", "v": [], "exact": True}
+                try:
+                    items2, _, _ = present(vals, "dict")
+                    v = prtpy.partition(algorithm=PART_ALGS[c["alg"]](), numbins=k, items=items2, outputtype=OUTTYPES[t], **part_kwargs(st))
+                    if t in ("LargestSum", "SmallestSum", "Difference"):
+                        v = [v]
+                    elif t == "PartitionAndSums":
+                        v = v.sums
+                    elif t == "PartitionAndSumsTuple":
+                        v = v[0]
+                    y["v"], y["exact"] = _limb_seq(v)
+                except Exception as e:
+                    y["out"] = outcome_of_exception(e)
+                r["ots"].append(y)
+        res.append(r)
+        if sums_for_obj is not None and c.get("objs"):
+            for o, kp in (("maxsum", 0), ("minsum", 0), ("diff", 0), ("klargest", 2), ("ksmallest", 2), ("klargest", len(sums_for_obj) + 1)):
+                for cont in (list, np.array):
+                    ev = {"o": o, "kp": kp, "out": "ret", "neg": 0, "mag": [0, 0], "exact": True}
+                    ev["s"], _ = _limb_seq(sums_for_obj)
+                    try:
+                        v = objective(o, kp).value_to_minimize(cont(sums_for_obj))
+                        ev["neg"] = 1 if v < 0 else 0
+                        m = limbs(abs(v))
+                        if m is None:
+                            ev["exact"] = False
+                        else:
+                            ev["mag"] = m
+                    except Exception as e:
+                        ev["out"] = outcome_of_exception(e)
+                    objs.append(ev)
+    vl, _ = _limb_seq(vals)
+    return {"vals": vl, "rawvals": [str(v) for v in vals], "k": k, "res": res, "objs": objs}
